@@ -715,7 +715,7 @@ theorem bwd_fast_region (env : MapEnv) (s : Spec) (hs : s.ok) (hal : s.start % 2
 /-! ## the naive backward search is the region-level search -/
 
 theorem findPrevSimpleLoop_eq (env : MapEnv) (henv : env.ok) (s : Spec) (hs : s.ok) (m : Mem) (E : Nat) :
-    ∀ n fuel c grain, n ≤ fuel → n ≤ c → (c + 1) * 2 ^ s.logRegion ≤ 2 ^ 64 →
+    ∀ n fuel c grain, n ≤ fuel → n ≤ c → c * 2 ^ s.logRegion < 2 ^ 64 →
     (∀ q, c - n < q → q ≤ c → q * 2 ^ s.logRegion ≥ E) → ¬ ((c - n) * 2 ^ s.logRegion ≥ E) →
     (∀ x, grain ≤ x → x ≤ c * 2 ^ s.logRegion → env.mapped x = true) →
     findPrevSimpleLoop env s m E fuel (c * 2 ^ s.logRegion) grain = regionBwd env s m n (c + 1) := by
@@ -734,9 +734,7 @@ theorem findPrevSimpleLoop_eq (env : MapEnv) (henv : env.ok) (s : Spec) (hs : s.
     have hge : c * 2 ^ s.logRegion ≥ E := hin c (by omega) (Nat.le_refl _)
     have hprev : c * 2 ^ s.logRegion - 2 ^ s.logRegion = (c - 1) * 2 ^ s.logRegion := by
       rw [Nat.sub_mul, Nat.one_mul]
-    have hc64 : c * 2 ^ s.logRegion < 2 ^ 64 := by
-      have : c * 2 ^ s.logRegion < (c + 1) * 2 ^ s.logRegion := Nat.mul_lt_mul_of_pos_right (by omega) hR
-      omega
+    have hc64 : c * 2 ^ s.logRegion < 2 ^ 64 := h64
     have hnlt : ¬ c * 2 ^ s.logRegion < 2 ^ s.logRegion := by
       have := Nat.mul_le_mul_right (2 ^ s.logRegion) (by omega : 1 ≤ c)
       omega
@@ -746,7 +744,7 @@ theorem findPrevSimpleLoop_eq (env : MapEnv) (henv : env.ok) (s : Spec) (hs : s.
     have hrec : ∀ g', (∀ x, g' ≤ x → x ≤ (c - 1) * 2 ^ s.logRegion → env.mapped x = true) →
         findPrevSimpleLoop env s m E f ((c - 1) * 2 ^ s.logRegion) g' = regionBwd env s m n c := by
       intro g' hc'
-      have := ih f (c - 1) g' (by omega) (by omega) (by rw [e1]; exact Nat.le_trans (Nat.mul_le_mul_right _ (by omega)) h64)
+      have := ih f (c - 1) g' (by omega) (by omega) (Nat.lt_of_le_of_lt hle1 h64)
         (fun q a b => hin q (by omega) (by omega)) (by rw [e2]; exact hE) hc'
       rw [e1] at this; exact this
     simp only [findPrevSimpleLoop, regionBwd, hge, not_true_eq_false, if_false, hprev, load_region s hs m c hc64,
